@@ -2,6 +2,18 @@
 open Model
 open D_base
 
+(* Paris over IPv6 after the fix 'send a computed UDP/IPv6 checksum of zero as 0xFFFF': the swapped payload is
+   0xFFFF in that case; take the datagram from the C11 model of the repaired code (Net/ChannelSend.v run_send) *)
+let paris6 sp dp seq src dst =
+  let cfg = { cc_privilege = Privileged; cc_protocol = Udp; cc_source = unhex src; cc_target = unhex dst;
+              cc_packet_size = z_of_int 60; cc_payload_pattern = Z0; cc_initial_sequence = z_of_int 33434; cc_tos = Z0 } in
+  let p = { p_sequence = zi seq; p_identifier = Z0; p_src_port = zi sp; p_dest_port = zi dp;
+            p_ttl = z_of_int 3; p_round = Z0; p_sent = Z0; p_flags = z_of_int 1 } in
+  let (ops, _) = run_send BoNetwork cfg [] p in
+  match List.rev ops with
+  | SendTo (b, _, _) :: _ -> hex b
+  | _ -> "no-send"
+
 let run_case (toks : string list) : string option =
   match toks with
   | ["cksum"; kind; d; src; dst] ->
@@ -14,6 +26,7 @@ let run_case (toks : string list) : string option =
         | "tcp4" -> tcp_ipv4_checksum d src dst
         | "udp6" -> udp_ipv6_checksum d src dst
         | _ -> failwith "kind"))
+  | ["paris"; "6"; sp; dp; seq; src; dst] -> Some (paris6 sp dp seq src dst)
   | ["paris"; _fam; sp; dp; seq; src; dst] ->
     Some (hex (paris_udp (zi sp) (zi dp) (zi seq) (unhex src) (unhex dst)))
   | _ -> None
